@@ -364,6 +364,28 @@ pub fn run(r: &mut Rec) {
         }
         one_case(r, &format!("landmark {}/{}", la, lb), &a, &b, 1);
     }
+    // the running remainder's top two digits equal the divisor's top two digits (divisors of >= 3 digits), with and
+    // without a normalisation shift: the wide division must not be reached with hi == divisor
+    for lb in 3..=5usize {
+        for top in [1u64 << 63, u64::MAX, (1 << 63) + 5, 1, 3 << 20] {
+            for rep in 0..(if r.thorough { 6 } else { 2 }) {
+                let mut d = digits_p(&mut rng, lb, &[Pat::Random, Pat::Landmark]);
+                d[lb - 1] = top;
+                let nd = hint::from_u64s(&d);
+                let dm1 = hint::sub(&nd, &vec![1u32]);
+                for k in 1..=2usize {
+                    let mut sh = vec![0u32; 2 * k];
+                    sh.push(1);
+                    let v1 = hint::mul(&dm1, &sh);                       // (d - 1) * 2^(64k)
+                    let v2 = hint::sub(&hint::mul(&nd, &sh), &vec![1u32]); // d * 2^(64k) - 1
+                    for v in [v1, v2] {
+                        let a: Vec<u64> = v.chunks(2).map(|c| c[0] as u64 | ((*c.get(1).unwrap_or(&0) as u64) << 32)).collect();
+                        one_case(r, &format!("top2 equal lb{} k{} rep{}", lb, k, rep), &a, &d, 1);
+                    }
+                }
+            }
+        }
+    }
     // every normalisation shift of the divisor's top digit
     for sh in 0..64u32 {
         for lb in [2usize, 3, 5] {
